@@ -171,7 +171,10 @@ def outline_region(region, name, imports, intent_map=None):
     region_routine_arguments = order_variables_by_type(region_routine_arguments, imports=imports)
     region_routine_locals = order_variables_by_type(region_routine_locals, imports=imports)
 
-    region_routine.variables = region_routine_arguments + region_routine_locals
+    # Declare named constants first: the declarations of the arguments and locals may refer to them
+    region_routine_params = tuple(v for v in region_routine_locals if v.type.parameter)
+    region_routine_locals = tuple(v for v in region_routine_locals if not v.type.parameter)
+    region_routine.variables = region_routine_params + region_routine_arguments + region_routine_locals
     region_routine.arguments = region_routine_arguments
 
     # Ensure everything has been rescoped
